@@ -84,7 +84,7 @@ def judge(res, g, recs, in_variant, bgzip, scratch, tagname="x", record_history=
     gfa_path = os.path.join(scratch, "g.gfa")
     fw.write_text(gfa_path, g.text())
     text = "".join(r.line() + "\n" for r in recs)
-    gaf = os.path.join(scratch, f"{tagname}.gaf" + ("" if in_variant[0] == "plain" else ".gz"))
+    gaf = os.path.join(scratch, f"{tagname}.gaf" + ("" if in_variant[0].startswith("plain") else ".gz"))
     vi.write_gaf(gaf, text, in_variant)
     outp = os.path.join(scratch, f"{tagname}.sorted.gaf" + (".gz" if bgzip else ""))
     out = sc.run_sort(scratch, gfa_path, gaf, outgaf=outp, outind=os.path.join(scratch, f"{tagname}.gsi"), bgzip=bgzip)
@@ -156,7 +156,7 @@ def run_shard(spec, tier, scratch):
     if part == "full":
         g_other, _ = build(spec["nchrom"], retagged=True)
         judge(res, g_other, recs, ("plain",), False, scratch)  # also leaves a different graph in this process's history
-        for inv in (("plain",), ("pysam",), ("bgzf", [len(recs[0].line()) + 1, len(recs[0].line()) + 20], [], True)):
+        for inv in (("plain",), ("pysam",), ("bgzf", [len(recs[0].line()) + 1, len(recs[0].line()) + 20], [], True), ("plain-nonl",), ("pysam-nonl",)):
             for bgzip in (False, True):
                 judge(res, g, recs, inv, bgzip, scratch)
                 judge(res, g, recs[::-1], inv, bgzip, scratch)
